@@ -69,6 +69,9 @@ pub struct HalState {
     pub faults: Vec<(String, String)>,
     pub seq: u64,
     next_dma_paddr: u64,
+    /// One-shot: the next DMA allocation starts this many pages below a 4 GiB boundary of device
+    /// address space (so that a region of more pages straddles the boundary).
+    straddle: Option<u64>,
     next_share_paddr: u64,
     /// If Some(k), the k-th (0-based) dma_alloc call of this execution fails.
     pub fail_dma_at: Option<usize>,
@@ -95,6 +98,7 @@ impl Default for HalState {
             faults: vec![],
             seq: 0,
             next_dma_paddr: DMA_PADDR_BASE,
+            straddle: None,
             next_share_paddr: SHARE_PADDR_BASE,
             fail_dma_at: None,
             dma_calls: 0,
@@ -162,6 +166,9 @@ impl HalState {
     /// I/O virtual address as any other.
     pub fn set_share_base(&mut self, base: u64) {
         self.next_share_paddr = base;
+    }
+    pub fn straddle_next(&mut self, pages_below: u64) {
+        self.straddle = Some(pages_below);
     }
     pub fn skew_dma(&mut self, pages: u64) {
         self.next_dma_paddr += pages * PAGE_SIZE as u64;
@@ -314,7 +321,16 @@ unsafe impl Hal for LabHal {
             // that the upper halves of the addresses of one queue's regions differ (a transport
             // mixing up the halves of two addresses is then visible).
             let window = (h.dma.len() as u64 % 7) << 32;
-            let paddr = h.next_dma_paddr + window;
+            let mut paddr = h.next_dma_paddr + window;
+            if let Some(b) = h.straddle.take() {
+                let up = (paddr + (1u64 << 32) - 1) & !((1u64 << 32) - 1);
+                let mut np = up - b * PAGE_SIZE as u64;
+                if np < paddr {
+                    np += 1u64 << 32;
+                }
+                h.next_dma_paddr += np - paddr;
+                paddr = np;
+            }
             // Leave an unmapped guard gap between allocations in device address space.
             h.next_dma_paddr += ((pages.max(1) + 1) * PAGE_SIZE) as u64;
             h.seq += 1;
